@@ -9,7 +9,7 @@ BOUNDS = {
     "quick": "paths parsed from skeleton data (all numbers symbolic): leading M/m + every 2-command sequence over the 18 non-arc letters, smooth chains, multiple subpaths, "
              "closes, subpaths without their own move, segment-completing z; each printed with relative in {None, False, True} x smooth in {None, False, True} through "
              "Path.d, str(path) and Subpath.d and re-parsed by the real parser; arcs: native arcs with symbolic centre, radii, rotation and sweep (all four flag "
-             "combinations arise as solver paths) printed absolute and relative and re-read with the argument recorder",
+             "combinations arise as solver paths) printed absolute and relative and re-read with the argument recorder; curve / non-curve / curve chains (CMC, QMQ, CLLC, QzQ) with smooth output",
     "thorough": "every 3-command sequence",
 }
 OUTSIDE = ["the 12-significant-digit coordinate format and the 6-digit %G of arc radii/rotation (numbers cross the text as tags; C-level formatting cannot be encoded)",
